@@ -546,5 +546,7 @@ pub open spec fn ascii_bytes(s: Seq<u8>) -> bool { forall|i: int| 0 <= i < s.len
 //@endfn
 //@endimpl
 
+// ---- code this unit's claims rely on that is outside the verifier: pinned to the reference tree (rule ix of ./check) ----
+//@watch src/client.rs "impl ClientConnection" new
 } // verus!
 fn main() {}
